@@ -186,7 +186,7 @@ H("C13", "m2", _SK, "quick", "C13.c parse_skin (layout auto-detection) reads an 
   ["c13c_parse_skin_autodetect_old"], ["skin::parse_skin", "skin::detect_skin_format", "skin::SkinG::{write,parse}"], "5 indices, symbolic", "that shape",
   assumes=["at least 5 indices (known finding KF-C13-skin-autodetect-small)"], stubs=[FMT])
 H("C13", "m2", _SK, "quick", "C13.c witness: old-layout skin with 4 indices through parse_skin", ["c13c_parse_skin_autodetect_small_witness"],
-  ["skin::parse_skin", "skin::detect_skin_format"], "concrete", "one input", stubs=[FMT], expect="witness:KF-C13-skin-autodetect-small")
+  ["skin::detect_skin_format (first step of skin::parse_skin)", "skin::SkinG::write"], "concrete", "one input", stubs=[FMT], expect="witness:KF-C13-skin-autodetect-small")
 H("C13", "m2", _SK, "quick", "canary", ["c13c_skin_canary"], ["skin::SkinBatch::parse"], "vacuity twin", "-", expect="canary", stubs=[FMT])
 
 # =============================================================================== C13.d anim
@@ -195,15 +195,22 @@ H("C13", "m2", _AN, "quick", "C13.d anim records: header 20, entry 12, section h
   ["c13d_anim_header_record", "c13d_anim_entry_record", "c13d_anim_section_header_record"],
   ["anim::AnimHeader::{parse,write}", "anim::AnimEntry::{parse,write}", "anim::AnimSectionHeader::{parse,write}"],
   "record bytes symbolic behind the assigned magic", "one record", assumes=[_CONSTS], stubs=[FMT])
-H("C13", "m2", _AN, "thorough", "C13.d section with one bone, one key per track: write->parse content equal, offset table points at the bone, second write identical",
-  ["c13d_anim_section_roundtrip"], ["anim::AnimSection::{write,parse}", "common::C3Vector::{parse,write}", "common::Quaternion::{parse,write}"],
-  "bone id, section header, time stamps, 10 floats symbolic", "1 bone, 1 key per track; parse is given size = 16 + 4 * bones", stubs=[FMT, LOSSY13], timeout=2400)
-H("C13", "m2", _AN, "thorough", "C13.d modern anim file, one section, one bone without keys: entry table vs section position/length, write->parse content",
-  ["c13d_anim_file_roundtrip_empty_bone"], ["anim::AnimFile::{write,parse}", "anim::AnimParser::parse_modern", "anim::AnimFormatDetector::detect_format", "anim::AnimSection::{write,parse}"],
-  "section header, header version/unknown/stale offsets symbolic", "1 section, 1 bone, no key frames",
-  assumes=["bones carry no key frames (known finding KF-C13-anim-section-size)"], stubs=[FMT, LOSSY13], timeout=2400)
-H("C13", "m2", _AN, "quick", "C13.d witness: modern anim file with one translation key", ["c13d_anim_file_bone_data_witness"],
-  ["anim::AnimFile::{write,parse}"], "concrete", "one input", stubs=[FMT], expect="witness:KF-C13-anim-section-size")
+H("C13", "m2", _AN, "quick", "C13.d section with one bone and one key per track: parse of the section image returns that content (fields where the layout puts them)",
+  ["c13d_anim_section_parse"], ["anim::AnimSection::parse", "anim::AnimSectionHeader::parse", "common::C3Vector::parse", "common::Quaternion::parse"],
+  "92-byte section image: magic, offset word (20), flags (7) and the three key counts (1) assigned; ids, time stamps and 10 floats symbolic",
+  "1 bone, 1 key per track; parse is given size = 16 + 4 * bones", stubs=[FMT])
+H("C13", "m2", _AN, "thorough", "C13.d section with one bone and one translation key written: exactly the image the parser reads (offset table points at the bone)",
+  ["c13d_anim_section_write"], ["anim::AnimSection::write", "anim::AnimSectionHeader::write", "common::C3Vector::write"],
+  "ids, frame end, time stamp, 2 floats symbolic", "1 bone, 1 translation key", stubs=[FMT], timeout=2400)
+_afile = ["anim::AnimFile::{parse,write}", "anim::AnimParser::parse_modern", "anim::AnimFile::write_modern", "anim::AnimFormatDetector::detect_format",
+          "anim::AnimSection::{parse,write}"]
+H("C13", "m2", _AN, "quick", "C13.d modern anim file, one section, one bone without keys: parse of the file image returns that content (fields where the layout puts them)",
+  ["c13d_anim_file_parse"], _afile,
+  "52-byte file image: magics, id_count, entry offset, section offset/size, bone offset word (0) assigned; version, unknown, ids, frame range symbolic",
+  "1 section, 1 bone, no key frames", assumes=["bones carry no key frames (known finding KF-C13-anim-section-size)"], stubs=[FMT])
+H("C13", "m2", _AN, "quick", "C13.d witness: section with one translation key parsed with the length AnimFile::write records for it", ["c13d_anim_section_size_witness"],
+  ["anim::AnimSection::parse", "anim::AnimFile::write_modern (entry.size = section length)"], "concrete 48-byte section image", "one input", stubs=[FMT],
+  expect="witness:KF-C13-anim-section-size")
 H("C13", "m2", _AN, "quick", "C13.d witness: legacy-format anim file loses its section header", ["c13d_anim_legacy_witness"],
   ["anim::AnimFile::{write,parse}", "anim::AnimParser::parse_legacy"], "concrete", "one input", stubs=[FMT], expect="witness:KF-C13-anim-legacy-placeholder")
 H("C13", "m2", _AN, "quick", "canary", ["c13d_anim_canary"], ["anim::AnimEntry::parse"], "vacuity twin", "-", expect="canary", stubs=[FMT])
@@ -249,7 +256,8 @@ OUTSIDE["C13"] = [
     "combined with the other 30 bits all clear or all set",
     "skins beyond the shape 2 indices / 3 triangle indices / 1 vertex / at most 1 submesh or 1 batch; Skin::convert, to_old_format, to_new_format; "
     "bone index arrays whose length is not a multiple of 4",
-    "anim: more than one section, bone or key per track; AnimFile::convert; the legacy layout (placeholder parser: KF-C13-anim-legacy-placeholder)",
+    "anim: AnimFile::write as a whole (no verdict under the 14 GB memory cap; decided: records, AnimSection::write, AnimFile::parse), more than one section, "
+    "bone or key per track; AnimFile::convert; the legacy layout (placeholder parser: KF-C13-anim-legacy-placeholder)",
     "names longer than 2 bytes or non-ASCII; floats are compared bitwise (NaN payloads included) except for the documented NaN-pivot repair",
     "allocation behaviour on untrusted counts (read_array pre-allocates count * size): C05 territory",
 ]
